@@ -8,7 +8,7 @@ open BV.Drv
 
 def step (line : String) : String :=
   let ws := (line.splitOn " ").filter (· ≠ "")
-  let handlers : List (List String → Option String) := [opC17, opC18, opC20, opCodec]
+  let handlers : List (List String → Option String) := [opC17, opC18, opC20, opCodec, opC02]
   match handlers.findSome? (fun h => h ws) with
   | some r => r
   | none => "bad-op"
